@@ -391,3 +391,225 @@ pub mod ctxrules {
         end(3, 1);
     }
 }
+#[cfg(all(feature = "xdrdigest", feature = "traphook", feature = "cap21"))]
+pub mod scratch {
+    use soroban_sdk::model::{self, world, CAP};
+    use soroban_sdk::{Address, Arb, Bytes, BytesN, Env, Flat, Map, String, Val, Vec as SVec};
+    use stellar_accounts::smart_account::{self as sa, MAX_POLICIES, Signer};
+    use crate::util::*;
+    use super::ctxrules::*;
+    fn run(n: u32) {
+        setup_world();
+        let e = Env::default();
+        kani::assume(world().seq <= u32::MAX - 40 * 17280);
+        let r = declare_rule(true, fixed_but_last(n), distinct_ids(1, 1));
+        let s = Signer::Delegated(Address::from_id(kani::any()));
+        sa::add_signer(&e, r.id, &s);
+        witness!(true, "x");
+    }
+    #[kani::proof]
+    #[kani::unwind(130)]
+    pub fn p_s2() { run(2) }
+    #[kani::proof]
+    #[kani::unwind(130)]
+    pub fn p_s4() { run(4) }
+    #[kani::proof]
+    #[kani::unwind(130)]
+    pub fn p_s8() { run(8) }
+}
+#[cfg(all(feature = "xdrdigest", feature = "traphook", feature = "cap21"))]
+pub mod scratch2 {
+    use soroban_sdk::model::{self, world, CAP};
+    use soroban_sdk::{flat_lt, Address, Arb, Bytes, BytesN, Env, Flat, Map, String, Val, Vec as SVec};
+    use stellar_accounts::smart_account::{self as sa, MAX_POLICIES, Signer};
+    use crate::util::*;
+    use crate::registries::List;
+    use super::ctxrules::*;
+    fn heavy() {
+        let l = List::arb(0, 20);
+        kani::assume(l.nodup());
+        witness!(l.n == 3, "y");
+    }
+    fn fixed(n: u32) -> List {
+        let mut l = List::empty();
+        l.n = n;
+        let mut k = 0;
+        while k < CAP { if (k as u32) < n { l.x[k] = 1000 + k as u32; } k += 1; }
+        l
+    }
+    #[kani::proof]
+    #[kani::unwind(130)]
+    pub fn q_lt() {
+        let v = delegated(&fixed(3));
+        if !flat_lt(&v.get(0).unwrap(), &v.get(1).unwrap()) { heavy(); }
+        witness!(true, "x");
+    }
+    #[kani::proof]
+    #[kani::unwind(130)]
+    pub fn q_lt0() {
+        let v = delegated(&fixed(3));
+        if !flat_lt(&v.get(0).unwrap(), &v.get(1).unwrap()) { kani::assume(false); }
+        witness!(true, "x");
+    }
+    #[kani::proof]
+    #[kani::unwind(130)]
+    pub fn q_lt1() {
+        let v = delegated(&fixed(3));
+        if !flat_lt(&v.get(0).unwrap(), &v.get(1).unwrap()) { kani::assume(false); }
+        heavy();
+        witness!(true, "x");
+    }
+    #[kani::proof]
+    #[kani::unwind(130)]
+    pub fn q_st0() {
+        setup_world();
+        let e = Env::default();
+        let r = declare_rule(true, fixed(3), distinct_ids(1, 1));
+        let rule = sa::get_context_rule(&e, r.id);
+        if !flat_lt(&rule.signers.get(0).unwrap(), &rule.signers.get(1).unwrap()) { kani::assume(false); }
+        witness!(true, "x");
+    }
+    #[kani::proof]
+    #[kani::unwind(130)]
+    pub fn q_st1() {
+        setup_world();
+        let e = Env::default();
+        let r = declare_rule(true, fixed_but_last(3), distinct_ids(1, 1));
+        let rule = sa::get_context_rule(&e, r.id);
+        if !flat_lt(&rule.signers.get(0).unwrap(), &rule.signers.get(1).unwrap()) { heavy(); }
+        witness!(true, "x");
+    }
+    #[kani::proof]
+    #[kani::unwind(130)]
+    pub fn q_st2() {
+        setup_world();
+        let e = Env::default();
+        let r = declare_rule(true, fixed(3), distinct_ids(1, 1));
+        let v = model::slot_val::<SVec<Signer>>(1);
+        if !flat_lt(&v.get(0).unwrap(), &v.get(1).unwrap()) { heavy(); }
+        witness!(true, "x");
+    }
+    fn sort_of(signers: &SVec<Signer>) -> SVec<Signer> {
+        let e = Env::default();
+        let mut sorted = SVec::new(&e);
+        for p in signers.iter() {
+            match sorted.binary_search(&p) {
+                Ok(_) => kani::assume(false),
+                Err(pos) => sorted.insert(pos, p),
+            }
+        }
+        sorted
+    }
+    #[kani::proof]
+    #[kani::unwind(130)]
+    pub fn q_so1() {
+        let v = delegated(&fixed(4));
+        let s = sort_of(&v);
+        witness!(s.len() == 4, "x");
+    }
+    #[kani::proof]
+    #[kani::unwind(130)]
+    pub fn q_so2() {
+        setup_world();
+        let e = Env::default();
+        let r = declare_rule(true, fixed(4), distinct_ids(1, 1));
+        let rule = sa::get_context_rule(&e, r.id);
+        let s = sort_of(&rule.signers);
+        witness!(s.len() == 4, "x");
+    }
+    #[kani::proof]
+    #[kani::unwind(130)]
+    pub fn q_so3() {
+        setup_world();
+        let e = Env::default();
+        let r = declare_rule(true, fixed(4), distinct_ids(1, 1));
+        let rule = sa::get_context_rule(&e, r.id);
+        let mut signers = rule.signers.clone();
+        let n = Signer::Delegated(Address::from_id(kani::any()));
+        if signers.contains(&n) { kani::assume(false); }
+        signers.push_back(n.clone());
+        let s = sort_of(&signers);
+        witness!(s.len() == 5, "x");
+    }
+    fn sg(x: u32) -> Signer { Signer::Delegated(Address::from_id(x)) }
+    #[kani::proof]
+    #[kani::unwind(130)]
+    pub fn q_a1() {
+        let mut v: SVec<Signer> = SVec::new(&Env);
+        v.insert(0, sg(1000));
+        v.insert(1, sg(1001));
+        if v.binary_search(&sg(1002)) != Err(2) { heavy(); }
+        witness!(true, "x");
+    }
+    #[kani::proof]
+    #[kani::unwind(130)]
+    pub fn q_a2() {
+        let mut v: SVec<Signer> = SVec::new(&Env);
+        let r1 = v.binary_search(&sg(1000));
+        if let Err(p) = r1 { v.insert(p, sg(1000)); }
+        let r2 = v.binary_search(&sg(1001));
+        if let Err(p) = r2 { v.insert(p, sg(1001)); }
+        if v.binary_search(&sg(1002)) != Err(2) { heavy(); }
+        witness!(true, "x");
+    }
+    #[kani::proof]
+    #[kani::unwind(130)]
+    pub fn q_a3() {
+        let src = delegated(&fixed(2));
+        let mut v: SVec<Signer> = SVec::new(&Env);
+        for p in src.iter() {
+            match v.binary_search(&p) {
+                Ok(_) => kani::assume(false),
+                Err(pos) => v.insert(pos, p),
+            }
+        }
+        if v.binary_search(&sg(1002)) != Err(2) { heavy(); }
+        witness!(true, "x");
+    }
+    #[kani::proof]
+    #[kani::unwind(130)]
+    pub fn q_b1() {
+        let src = delegated(&fixed(2));
+        let mut it = src.iter();
+        let _a = it.next();
+        let _b = it.next();
+        let c = it.next();
+        if c.is_some() { heavy(); }
+        witness!(true, "x");
+    }
+    #[kani::proof]
+    #[kani::unwind(130)]
+    pub fn q_b2() {
+        let src = delegated(&fixed(2));
+        let mut it = src.iter();
+        let a = it.next();
+        if a.is_none() { heavy(); }
+        witness!(true, "x");
+    }
+    #[kani::proof]
+    #[kani::unwind(130)]
+    pub fn q_b3() {
+        let src = delegated(&fixed(2));
+        let a = src.get(0);
+        let c = src.get(2);
+        if a.is_none() || c.is_some() { heavy(); }
+        witness!(true, "x");
+    }
+    #[kani::proof]
+    #[kani::unwind(130)]
+    pub fn q_bs() {
+        let v = delegated(&fixed(3));
+        let s = Signer::Delegated(Address::from_id(1001));
+        if v.binary_search(&s) != Ok(1) { heavy(); }
+        witness!(true, "x");
+    }
+    #[kani::proof]
+    #[kani::unwind(130)]
+    pub fn q_ins() {
+        let mut v = delegated(&fixed(3));
+        let s = Signer::Delegated(Address::from_id(5));
+        v.insert(0, s);
+        if !flat_lt(&v.get(0).unwrap(), &v.get(1).unwrap()) { heavy(); }
+        witness!(true, "x");
+    }
+}
